@@ -12,4 +12,17 @@ from .values import EngineError
 
 
 class Engine(SpecMixin, VerifyMixin, StmtMixin, CallMixin, ExprMixin, _Base):
-    pass
+    def __init__(self, schema, repo):
+        super().__init__(schema, repo)
+        # exception classes defined by loky are derived from the source's own bases
+        for name in list(schema.modules):
+            try:
+                mi = repo.module(name)
+            except EngineError:
+                continue
+            for cname, node in mi.classes.items():
+                if node.bases:
+                    try:
+                        self.class_value(mi, node)
+                    except EngineError:
+                        pass
